@@ -173,6 +173,10 @@ def run(ctx):
 
     _predicate_pass_through(ctx, prog, dual)
     _planner(ctx, prog, dual)
+    # "with non-wrapping limits every node is within limits": the tree grows towards samples of constraints().random_angles();
+    # that those samples honour the limits is C18's subject (slot i drawn from (from[i], to[i]), values on the arc) - re-checked here
+    from . import C18
+    C18.run(ctx)
 
 
 def _predicate_pass_through(ctx, prog, dual):
